@@ -4,230 +4,44 @@ Generated directory trees (nested dirs, empty files, plain / gzip / truncated gz
 missing paths, a directory given as a file, symlinks, names with glob characters) x argument forms
 (path, glob, no-match glob, literal-with-glob-chars, malformed pattern, -R dir, `-`, none, the same
 path twice) x -z x --readers/--batch/--workers.  For every invocation the oracle data the model needs
-(os.Stat / filepath.Walk / filepath.Glob answers, file contents, what compress/gzip yields) is
-computed HERE, independently of Go (a port of filepath.Match/Glob, os.lstat walking, zlib), handed to
-`driver_C06`, and the model's prediction (stdout multiset, exit status, canonical [Log] lines,
-Matched/Read counters) is compared with what the binary did.
+is: the directory tree itself (names, kinds, link targets – the Lean model of path resolution,
+filepath.Match/Glob/Walk and dirwalk.GlobExpand computes the plan from it: op `globx`, then `runtree`),
+the contents of the planned files and what compress/gzip yields for them (zlib cross-checked).  The
+model's prediction (stdout multiset, exit status, canonical [Log] lines, Matched/Read counters) is
+compared with what the binary did.  (Until the glob model existed this script carried its own port of
+filepath.Match/Glob; it is gone: the Lean model is the only oracle for the file system now.)
 """
 import os, sys, shutil, stat, zlib, struct, binascii, re, subprocess
 sys.path.insert(0, os.path.dirname(__file__))
 from common import build_rare, Rand
 
-# ------------------------------------------------------------------ port of Go's path/filepath Match + Glob (unix)
-
-class BadPattern(Exception):
-    pass
-
-
-def _scan_chunk(pattern):
-    star = False
-    while pattern and pattern[0] == '*':
-        pattern = pattern[1:]
-        star = True
-    inrange = False
-    i = 0
-    while i < len(pattern):
-        c = pattern[i]
-        if c == '\\':
-            if i + 1 < len(pattern):
-                i += 1
-        elif c == '[':
-            inrange = True
-        elif c == ']':
-            inrange = False
-        elif c == '*':
-            if not inrange:
-                break
-        i += 1
-    return star, pattern[:i], pattern[i:]
-
-
-def _get_esc(chunk):
-    if not chunk or chunk[0] == '-' or chunk[0] == ']':
-        raise BadPattern()
-    if chunk[0] == '\\':
-        chunk = chunk[1:]
-        if not chunk:
-            raise BadPattern()
-    r = chunk[0]
-    n = chunk[1:]
-    if not n:
-        raise BadPattern()
-    return r, n
-
-
-def _match_chunk(chunk, s):
-    failed = False
-    while chunk:
-        if not failed and len(s) == 0:
-            failed = True
-        c = chunk[0]
-        if c == '[':
-            r = '\0'
-            if not failed:
-                r = s[0]
-                s = s[1:]
-            chunk = chunk[1:]
-            negated = False
-            if chunk and chunk[0] == '^':
-                negated = True
-                chunk = chunk[1:]
-            match = False
-            nrange = 0
-            while True:
-                if chunk and chunk[0] == ']' and nrange > 0:
-                    chunk = chunk[1:]
-                    break
-                lo, chunk = _get_esc(chunk)
-                hi = lo
-                if chunk[0] == '-':
-                    hi, chunk = _get_esc(chunk[1:])
-                if lo <= r <= hi:
-                    match = True
-                nrange += 1
-            if match == negated:
-                failed = True
-        elif c == '?':
-            if not failed:
-                if s[0] == '/':
-                    failed = True
-                s = s[1:]
-            chunk = chunk[1:]
-        else:
-            if c == '\\':
-                chunk = chunk[1:]
-                if not chunk:
-                    raise BadPattern()
-            if not failed:
-                if chunk[0] != s[0]:
-                    failed = True
-                s = s[1:]
-            chunk = chunk[1:]
-    if failed:
-        return None
-    return s
-
-
-def go_match(pattern, name):
-    while pattern:
-        star, chunk, pattern = _scan_chunk(pattern)
-        if star and chunk == '':
-            return '/' not in name
-        t = _match_chunk(chunk, name)
-        if t is not None and (len(t) == 0 or len(pattern) > 0):
-            name = t
-            continue
-        if star:
-            i = 0
-            cont = False
-            while i < len(name) and name[i] != '/':
-                t = _match_chunk(chunk, name[i + 1:])
-                if t is not None:
-                    if len(pattern) == 0 and len(t) > 0:
-                        i += 1
-                        continue
-                    name = t
-                    cont = True
-                    break
-                i += 1
-            if cont:
-                continue
-        while pattern:
-            _, chunk, pattern = _scan_chunk(pattern)
-            _match_chunk(chunk, '')
-        return False
-    return len(name) == 0
-
+# ------------------------------------------------------------------ small path helpers
 
 def _has_meta(p):
     return any(c in p for c in '*?[\\')
 
 
-def go_clean(p):
-    """path/filepath.Clean for the simple relative/absolute unix paths used here."""
-    if p == '':
-        return '.'
-    rooted = p.startswith('/')
-    out = []
-    for part in p.split('/'):
-        if part == '' or part == '.':
-            continue
-        if part == '..':
-            if out and out[-1] != '..':
-                out.pop()
-            elif not rooted:
-                out.append('..')
-        else:
-            out.append(part)
-    s = '/'.join(out)
-    if rooted:
-        return '/' + s
-    return s if s else '.'
-
-
 def go_join(a, b):
-    parts = [x for x in (a, b) if x != '']
-    if not parts:
-        return ''
-    return go_clean('/'.join(parts))
+    return a + '/' + b if a else b
 
 
-def _glob_dir(root, d, pattern, matches):
-    full = os.path.join(root, d)
-    if not os.path.isdir(full):  # os.Stat(dir) fails or not a directory
-        return
-    try:
-        names = sorted(os.listdir(full))
-    except OSError:
-        return
-    for n in names:
-        if go_match(pattern, n):
-            matches.append(go_join(d, n))
-
-
-def go_glob(root, pattern):
-    """filepath.Glob(pattern) with cwd = root.  Raises BadPattern."""
-    go_match(pattern, '')  # well-formedness
-    if not _has_meta(pattern):
-        return [pattern] if os.path.lexists(os.path.join(root, pattern)) else []
-    i = pattern.rfind('/')
-    d, f = pattern[:i + 1], pattern[i + 1:]
-    if d == '':
-        d = '.'
-    elif d == '/':
-        d = '/'
-    else:
-        d = d[:-1]
-    if not _has_meta(d):
-        m = []
-        _glob_dir(root, d, f, m)
-        return m
-    if d == pattern:
-        raise BadPattern()
-    m = []
-    for dd in go_glob(root, d):
-        _glob_dir(root, dd, f, m)
-    return m
-
-
-def go_walk(root, p):
-    """Non-directory paths filepath.Walk(walkRoot(p)) reports (cwd = root), in order."""
-    start = p if p.endswith('/') else p + '/'
-    out = []
-
-    def walk(path, st):
-        if not stat.S_ISDIR(st.st_mode):
-            out.append(path)
-            return
-        for n in sorted(os.listdir(os.path.join(root, path))):
-            fn = go_join(path, n)
-            walk(fn, os.lstat(os.path.join(root, fn)))
-    try:
-        st = os.lstat(os.path.join(root, start))
-    except OSError:
-        return out
-    walk(start, st)
-    return out
+def tree_spec(root):
+    """The tree under `root` in the protocol's form (parents first): `hexpath:d`, `hexpath:f`, `hexpath:l:hextarget`."""
+    ents = []
+    for dirpath, dirnames, filenames in os.walk(root, topdown=True, followlinks=False):
+        rel = os.path.relpath(dirpath, root)
+        rel = '' if rel == '.' else rel
+        for n in sorted(dirnames + filenames):
+            p = go_join(rel, n)
+            full = os.path.join(root, p)
+            st = os.lstat(full)
+            if stat.S_ISLNK(st.st_mode):
+                ents.append('%s:l:%s' % (hx(enc(p)), hx(enc(os.readlink(full)))))
+            elif stat.S_ISDIR(st.st_mode):
+                ents.append('%s:d' % hx(enc(p)))
+            else:
+                ents.append('%s:f' % hx(enc(p)))
+    return ','.join(ents) if ents else '.'
 
 # ------------------------------------------------------------------ gzip oracle (RFC 1952 header rules of compress/gzip + zlib)
 
@@ -502,26 +316,18 @@ def enc(s):
     return s.encode('utf-8', 'surrogateescape')
 
 
-def build_case(root, cfg, args, stdin, oracle):
-    """Returns (case line, candidate names)."""
-    fs_ents = []
-    paths = set()
-    for a in dict.fromkeys(args):
-        isdir = os.path.isdir(os.path.join(root, a))
-        walk = go_walk(root, a) if isdir else []
-        try:
-            g = go_glob(root, a)
-            tag = 'f'
-        except BadPattern:
-            g, tag = [], 'b'
-        fs_ents.append('%s:%d:%s:%s:%s' % (hx(enc(a)), 1 if isdir else 0, hxl([enc(x) for x in walk]), tag, hxl([enc(x) for x in g])))
-        paths.add(a)
-        paths.update(walk)
-        paths.update(g)
+def plan_case(tree, cfg, args):
+    """First pass: ask the Lean model which paths rare will open (`dirwalk.GlobExpand` over the tree)."""
+    return 'C06 globx %d %s %s' % (1 if cfg['recursive'] else 0, hxl([enc(a) for a in args]), tree)
+
+
+def build_case(root, tree, cfg, args, stdin, oracle, planned):
+    """Second pass: the whole run; `planned` = the paths the model plans to open (their contents are read here)."""
+    paths = set(planned)
     file_ents = []
     for p in sorted(paths):
         full = os.path.join(root, p)
-        if not os.path.exists(full):  # ENOENT / ENOTDIR / dangling link
+        if p == '' or '\0' in p or not os.path.exists(full):  # ENOENT / ENOTDIR / dangling link
             continue
         isdir = os.path.isdir(full)
         content = b'' if isdir else open(full, 'rb').read()
@@ -530,12 +336,23 @@ def build_case(root, cfg, args, stdin, oracle):
         else:
             ok, probed, dec, fails = oracle(content)
         file_ents.append('%s:1:%d:%s:%d:%d:%s:%d' % (hx(enc(p)), 1 if isdir else 0, hx(content), 1 if ok else 0, probed, hx(dec), 1 if fails else 0))
-    line = 'C06 run %d %d %d %d %s %s %s %s %s' % (
+    line = 'C06 runtree %d %d %d %d %s %s %s %s %s' % (
         1 if cfg['gunzip'] else 0, 1 if cfg['recursive'] else 0, cfg['readers'], cfg['batch'], cfg['mode'],
-        hxl([enc(a) for a in args]), ','.join(fs_ents) if fs_ents else '.', ','.join(file_ents) if file_ents else '.', hx(stdin))
+        hxl([enc(a) for a in args]), tree, ','.join(file_ents) if file_ents else '.', hx(stdin))
     if cfg.get('stdin_is_dir'):
         line += ' stdinfails'
-    return line, sorted(paths | {'<stdin>'}, key=len, reverse=True)
+    return line, sorted(paths | set(args) | {'<stdin>'}, key=len, reverse=True)
+
+
+def run_driver(ctx, lines):
+    p = subprocess.run([ctx['driver']], input=''.join(l + '\n' for l in lines).encode(), stdout=subprocess.PIPE,
+                       stderr=subprocess.PIPE, timeout=3000)
+    answers = p.stdout.decode().split('\n')
+    if answers and answers[-1] == '':
+        answers.pop()
+    if p.returncode != 0 or len(answers) != len(lines):
+        raise RuntimeError('driver_C06 answered %d of %d cases: %s' % (len(answers), len(lines), p.stderr[-500:]))
+    return answers
 
 
 def cli_cmd(exe, cfg, args):
@@ -681,11 +498,12 @@ def run(ctx):
     os.makedirs(base)
     ntrees = 45 if tier == 'quick' else 500
     per_tree = 6 if tier == 'quick' else 8
-    jobs = []   # (case line, cfg, args, stdin, root, names)
+    pre = []    # (cfg, args, stdin, root, tree)
     kinds = {}
     for t in range(ntrees):
         root = os.path.join(base, 't%04d' % t)
         dirs, files = gen_tree(rnd, root, tier)
+        tree = tree_spec(root)
         for k in files.values():
             kinds['file:' + k] = kinds.get('file:' + k, 0) + 1
         for _ in range(per_tree):
@@ -703,17 +521,21 @@ def run(ctx):
             if (not args or args[0] == '-') and rnd.intn(4) == 0:
                 cfg['stdin_is_dir'] = True   # standard input is a directory: the first Read fails (EISDIR)
                 stdin = b''
-            bc = build_case(root, cfg, args, stdin, oracle)
-            jobs.append((bc[0], cfg, args, stdin, root, bc[1]))
+            pre.append((cfg, args, stdin, root, tree))
+    # pass 1: the plan, from the Lean model of the file system
+    plans = run_driver(ctx, [plan_case(tree, cfg, args) for (cfg, args, stdin, root, tree) in pre])
+    jobs = []   # (case line, cfg, args, stdin, root, names)
+    outside = 0
+    for (cfg, args, stdin, root, tree), ans in zip(pre, plans):
+        if not ans.startswith('ok '):
+            outside += 1     # `unmodelled`: a path that leaves the tree
+            continue
+        planned = [] if ans[3:] == '.' else [bytes.fromhex(h).decode('utf-8', 'surrogateescape') if h != '-' else '' for h in ans[3:].split(';')]
+        bc = build_case(root, tree, cfg, args, stdin, oracle, planned)
+        jobs.append((bc[0], cfg, args, stdin, root, bc[1]))
     oracle.close()
-    # model answers in one driver run
-    p = subprocess.run([ctx['driver']], input=''.join(j[0] + '\n' for j in jobs).encode(), stdout=subprocess.PIPE,
-                       stderr=subprocess.PIPE, timeout=3000)
-    answers = p.stdout.decode().split('\n')
-    if answers and answers[-1] == '':
-        answers.pop()
-    if p.returncode != 0 or len(answers) != len(jobs):
-        raise RuntimeError('driver_C06 answered %d of %d cases: %s' % (len(answers), len(jobs), p.stderr[-500:]))
+    # pass 2: the run
+    answers = run_driver(ctx, [j[0] for j in jobs])
     violations = [{'key': 'gzip-oracle-disagreement', 'kind': 'oracle', 'detail': d,
                    'explanation': 'compress/gzip and the independent RFC1952/zlib computation disagree about this file'}
                   for d in oracle.disagreements[:3]]
@@ -771,11 +593,14 @@ def run(ctx):
                                               'oracle data computed by this script) disagree on this invocation'})
     shutil.rmtree(base, ignore_errors=True)
     stats.update(kinds)
+    stats['outside_the_tree_skipped'] = outside
     return {'runs': runs, 'violations': violations, 'e2e_trees': ntrees, 'e2e_stats': stats,
             'gzip_oracle_cross_check': oracle.stats,
             'assumptions': [
-                'e2e oracle data (filepath.Glob/Match port, lstat walk, RFC1952 header rules, zlib inflate) is computed by extra/C06.py; '
+                'e2e: the plan comes from the Lean model of the file system (tree sent with the case); file contents and the gzip '
+                'oracle (compress/gzip itself, cross-checked with RFC1952 header rules + zlib) are computed by extra/C06.py; '
                 'a wrong oracle shows up as a mismatch, not as silence',
                 'faults used: missing path, ENOTDIR path, directory given as file, a directory as standard input, dangling symlink, truncated gzip (any cut), bad gzip '
                 'trailer, bad stored-block length, trailing garbage, corrupt header (fallback); permission faults cannot be produced as root',
-                'OS file semantics, filepath.Glob/Walk and compress/gzip are oracle parameters of the model (not verified)']}
+                'file contents, Read faults and compress/gzip are oracle parameters of the model; path resolution, Match, Glob, Walk '
+                'are modelled in Lean (Rare/Model/C06Glob.lean) and checked here against the real binary']}
